@@ -36,6 +36,10 @@ HAND = [
     "pragma circom 2.0.0;\ntemplate Inner(n) { signal input a; signal output b; var n = 2; b <-- a * n; b === a * 2; }\n"
     "template Outer() { signal input x; signal output y; component i = Inner(1); i.a <== x; y <== i.b; }\n"
     "template Third() { signal input p; signal input q; signal output r; r <-- p >> 1; p === r * 2; q === r * 2 + 1; }\n",
+    # a template defined both in the named file and in a file it includes (which definition is kept and where the duplicate is
+    # reported must not depend on hash order; fixed finding F-C02-duplicates)
+    "pragma circom 2.0.0;\ntemplate DupT() { signal input a; signal output b; b <-- a; }\ntemplate DupT() { signal input a; signal output b; b <== a * a; }\n"
+    "function dupf(a) { return a; }\nfunction dupf(a) { return a + 1; }\ntemplate Third() { signal input p; signal output r; r <-- p >> 1; p === r * 2; }\n",
     # several reads of never-assigned locals in sibling blocks: which one the SSA conversion reports must not depend on hash order
     "pragma circom 2.0.0;\nfunction f(n) { var a[2]; if (n) { n = a[0]; } else { n = a[1]; } return n; }\n"
     "function g(n) { var u; var w; for (var i = 0; i < 2; i++) { if (n) { n = u; } else { n = w + 1; } } if (n == 3) { return w; } return u; }\n"
